@@ -1,0 +1,28 @@
+//go:build verif
+
+package domain
+
+import "github.com/synnaxlabs/x/telem"
+
+// VerifPointer is a read-only copy of a domain pointer, exported for verification
+// harnesses built with the verif tag.
+type VerifPointer struct {
+	telem.TimeRange
+	FileKey uint16
+	Offset  uint32
+	Size    uint32
+}
+
+// VerifPointers returns a snapshot of the in-memory pointer list.
+func (db *DB) VerifPointers() []VerifPointer {
+	db.idx.mu.RLock()
+	defer db.idx.mu.RUnlock()
+	out := make([]VerifPointer, len(db.idx.mu.pointers))
+	for i, p := range db.idx.mu.pointers {
+		out[i] = VerifPointer{TimeRange: p.TimeRange, FileKey: p.fileKey, Offset: p.offset, Size: p.size}
+	}
+	return out
+}
+
+// VerifFileName returns the name of the data file with the given key.
+func VerifFileName(key uint16) string { return fileKeyToName(key) }
